@@ -19,6 +19,9 @@ LONG_LENS = [600, 990, 1000, 1023, 1024, 1100, 2048, 5000]
 LONG_SEVS = (2, 4)
 
 
+FULL = "/dev/full"
+
+
 def padding(n):
     return "".join(chr(48 + i % 10) for i in range(n))
 
@@ -147,6 +150,9 @@ def make_case(seed, i, tier):
     rng = random.Random("c18/%d/%d" % (seed, i))
     nsec = rng.choice([1, 1, 2, 3, 4])
     dests = ["c%d_%s.log" % (i, x) for x in "abcd"]
+    if rng.random() < 0.15:
+        # one destination is a file that cannot be written to (a full disk): what goes there is lost, everything else is as usual
+        dests = dests[:3] + [FULL]
     secs = []
     prev = None
     for k in range(nsec):
@@ -154,7 +160,7 @@ def make_case(seed, i, tier):
             # an edit of the previous section that only changes where entries go (keys stay)
             items, vt = mutate_items(rng, prev[0], dests), prev[1]
         else:
-            items, vt = gen_items(rng, dests[:rng.choice([2, 3, 4])])
+            items, vt = gen_items(rng, dests[:rng.choice([2, 3, 4])] if FULL not in dests else dests[:rng.choice([1, 2, 3])] + [FULL])
         prev = (items, vt)
         secs.append(build_section(items, vt))
     if nsec >= 2 and rng.random() < 0.2:
@@ -188,7 +194,7 @@ def _worker(a):
         for name, (i, dests, secs) in meta.items():
             for d in dests:
                 p = os.path.join(b.dir, d)
-                if os.path.exists(p):
+                if d != FULL and os.path.exists(p):
                     with open(p, "rb") as f:
                         files[d] = f.read().decode("latin-1")
     finally:
@@ -246,8 +252,10 @@ def _worker(a):
             stats["invalid_entries"] += sum(1 for k, _ in entries if k.decode() in INVALID_KEYS)
             for fac in FACS:
                 for s in range(6):
-                    want = expected_dests(routes, fac, s)
+                    want = expected_dests(routes, fac, s) - {FULL}
                     have = set(got.get((r, fac, SEVS[s]), {}))
+                    if FULL in dests:
+                        stats["routing_decisions_next_to_an_unwritable_destination"] = stats.get("routing_decisions_next_to_an_unwritable_destination", 0) + 1
                     stats["routing_decisions_judged"] += len(dests)
                     stats["expected_deliveries"] += len(want)
                     stats["expected_absences"] += len(dests) - len(want)
